@@ -1,0 +1,119 @@
+//go:build verif
+
+// Machine-checked contracts for package dns, read by /verif/engine (govc).
+// Comment-only file: no declarations; not compiled without the build tag.
+package dns
+
+//@ pure be16(s []byte, o int) int = int(s[o])*256 + int(s[o+1])
+
+// inRaw: the cursor w is a window of the message being decoded.
+//@ pure inRaw(w []byte, raw []byte) bool = sameArray(w, raw) && offset(raw) <= offset(w) && offset(w) + len(w) <= offset(raw) + len(raw)
+
+// typedRR: the Go type of RR.Data is the one implied by RR.Type (what the resolver's type assertions rely on).
+//@ pure typedRR(rr RR) bool = rr.Data != nil &&
+//@     (rr.Type == 1 ==> dyntype(rr.Data) == typeid("net.IP") && len(payloadS(rr.Data)) == 4) &&
+//@     (rr.Type == 28 ==> dyntype(rr.Data) == typeid("net.IP") && len(payloadS(rr.Data)) == 16) &&
+//@     (rr.Type == 2 || rr.Type == 5 || rr.Type == 12 ==> dyntype(rr.Data) == typeid("string")) &&
+//@     (rr.Type == 6 ==> dyntype(rr.Data) == typeid("SOA")) && (rr.Type == 15 ==> dyntype(rr.Data) == typeid("MX")) &&
+//@     (rr.Type == 16 ==> dyntype(rr.Data) == typeid("TXT")) && (rr.Type == 29 ==> dyntype(rr.Data) == typeid("LOC")) &&
+//@     (rr.Type == 33 ==> dyntype(rr.Data) == typeid("SRV")) && (rr.Type == 37 ==> dyntype(rr.Data) == typeid("CERT")) &&
+//@     (rr.Type == 41 ==> dyntype(rr.Data) == typeid("[]Option")) && (rr.Type == 43 ==> dyntype(rr.Data) == typeid("DS")) &&
+//@     (rr.Type == 46 ==> dyntype(rr.Data) == typeid("RRSIG")) && (rr.Type == 47 ==> dyntype(rr.Data) == typeid("NSEC")) &&
+//@     (rr.Type == 48 ==> dyntype(rr.Data) == typeid("DNSKEY")) && (rr.Type == 64 ==> dyntype(rr.Data) == typeid("SVCB")) &&
+//@     (rr.Type == 65 ==> dyntype(rr.Data) == typeid("HTTPS")) && (rr.Type == 256 ==> dyntype(rr.Data) == typeid("URI")) &&
+//@     (rr.Type == 257 ==> dyntype(rr.Data) == typeid("CAA"))
+
+//@ func DecodeMessage returns (msg, err)
+//@   allocates Message
+//@   terminates
+//@   ensures[F:typed] err == nil ==> msg != nil && typedMsg(msg)
+//@   ensures[F:errclass] err != nil ==> msg == nil
+
+//@ pure typedMsg(m *Message) bool = forall(i, 0, len(m.Answer), typedRR(m.Answer[i])) && forall(i, 0, len(m.Authority), typedRR(m.Authority[i])) && forall(i, 0, len(m.Additional), typedRR(m.Additional[i]))
+
+//@ func decoder.decode returns (msg, err)
+//@   allocates Message
+//@   terminates
+//@   ensures[F:typed] err == nil ==> msg != nil && typedMsg(msg)
+//@   ensures[F:errclass] err != nil ==> msg == nil
+//@   ensures[S:counts] err == nil ==> len(msg.Question) <= 65535 && len(msg.Answer) <= 65535 && len(msg.Authority) <= 65535 && len(msg.Additional) <= 65535
+//@   loop 1 "n < int(qdCount)"
+//@     invariant inRaw(s, d.raw) && 0 <= n && len(msg.Question) == n
+//@     decreases int(qdCount) - n
+//@   loop 2 "n < int(anCount)"
+//@     invariant inRaw(s, d.raw) && 0 <= n && len(msg.Answer) == n && forall(i, 0, len(msg.Answer), typedRR(msg.Answer[i]))
+//@     decreases int(anCount) - n
+//@   loop 3 "n < int(nsCount)"
+//@     invariant inRaw(s, d.raw) && 0 <= n && len(msg.Authority) == n && forall(i, 0, len(msg.Authority), typedRR(msg.Authority[i]))
+//@     decreases int(nsCount) - n
+//@   loop 4 "n < int(arCount)"
+//@     invariant inRaw(s, d.raw) && 0 <= n && len(msg.Additional) == n && forall(i, 0, len(msg.Additional), typedRR(msg.Additional[i]))
+//@     decreases int(arCount) - n
+
+//@ func decoder.name returns (n, err)
+//@   requires s != nil && inRaw(*s, d.raw)
+//@   modifies *s
+//@   terminates
+//@   ensures[S:cursor] inRaw(*s, d.raw)
+
+//@ func decoder.nameLabels returns (labels, err)
+//@   requires s != nil && inRaw(*s, d.raw)
+//@   modifies *s
+//@   terminates
+//@   ensures[S:cursor] inRaw(*s, d.raw)
+//@   ensures[S:bounded] err == nil ==> len(labels) <= 128
+//@   loop 1 ""
+//@     invariant s != nil && inRaw(*s, d.raw) && 0 <= total && total <= 255 && 2*len(labels) <= total
+//@     invariant[cursor] (s == old(s) || fresh(s)) && inRaw(*old(s), d.raw)
+//@     decreases 256 - total
+//@   loop 2 "!s.Empty() && (*s)[0]&0xc0 == 0xc0"
+//@     invariant s != nil && inRaw(*s, d.raw) && 0 <= start
+//@     invariant[cursor] (s == old(s) || fresh(s)) && inRaw(*old(s), d.raw)
+//@     decreases start
+
+//@ func decoder.rr returns (rr, err)
+//@   requires s != nil && inRaw(*s, d.raw)
+//@   modifies *s
+//@   terminates
+//@   ensures[S:cursor] inRaw(*s, d.raw)
+//@   ensures[F:typed] err == nil ==> typedRR(rr)
+
+//@ func decoder.mx returns (result, err)
+//@   requires s != nil && inRaw(*s, d.raw)
+//@   modifies *s
+//@   terminates
+//@   ensures[S:cursor] inRaw(*s, d.raw)
+//@ func decoder.soa returns (result, err)
+//@   requires s != nil && inRaw(*s, d.raw)
+//@   modifies *s
+//@   terminates
+//@   ensures[S:cursor] inRaw(*s, d.raw)
+//@ func decoder.loc returns (result, err)
+//@   terminates
+//@ func decoder.srv returns (result, err)
+//@   requires inRaw(b, d.raw)
+//@   terminates
+//@ func decoder.svcb returns (result, err)
+//@   requires inRaw(b, d.raw)
+//@   terminates
+//@ func decoder.https returns (result, err)
+//@   requires inRaw(b, d.raw)
+//@   terminates
+//@ func decoder.cert returns (result, err)
+//@   terminates
+//@ func decoder.opt returns (result, err)
+//@   terminates
+//@ func decoder.ds returns (result, err)
+//@   terminates
+//@ func decoder.dnskey returns (result, err)
+//@   terminates
+//@ func decoder.nsec returns (result, err)
+//@   requires inRaw(b, d.raw)
+//@   terminates
+//@ func decoder.rrsig returns (result, err)
+//@   requires inRaw(b, d.raw)
+//@   terminates
+//@ func decoder.uri returns (result, err)
+//@   terminates
+//@ func decoder.caa returns (result, err)
+//@   terminates
